@@ -3,6 +3,7 @@ package main
 import (
 	"fmt"
 	"go/token"
+	"path/filepath"
 	"strings"
 
 	"golang.org/x/tools/go/ssa"
@@ -26,6 +27,7 @@ func runC15(c *Ctx) {
 	c.Rule("C15.R1", "subset entries hold exactly the hosts matching their own key/values", 6)
 	c.Rule("C15.R2", "ChooseHost delegates only to {matched active entry, full set when no criteria, fallback}", 8)
 	c.Rule("C15.R3", "fallback policy switch matches the three documented policies in both builders", 6)
+	c.Rule("C15.R4", "key/value lists of sibling subsets never share a backing array (no append onto a loop-invariant slice)", 3)
 	c.NotDecided = append(c.NotDecided, "observational equivalence of the pre-indexed and the filtering builder over all host sets (value property over metadata maps)", "the sparse-set index contents (initIndex) on concrete metadata")
 
 	pkg := "pkg/upstream/cluster"
@@ -327,6 +329,71 @@ func runC15(c *Ctx) {
 			}
 		}
 		c.Check("C15.R2", funcKey(fn)+":no-fallback-no-host", fn.Pos(), ok, "without a fallback entry an unmatched request gets no host", "an unmatched request without fallback no longer yields 'no host'")
+	}
+	c15DistinctKeyStorage(c, pkg)
+}
+
+// c15DistinctKeyStorage (R4): the key/value lists that identify sibling subsets must live in distinct storage.
+// Inside a loop, append(base, ..) with a loop-invariant, possibly non-full base writes every iteration's element into
+// the same spare slot of base's array, so all lists built by the loop end up naming the last value. Accepted: the base is
+// (re)built inside the iteration (make+copy, or the accumulator that is fed back), a nil base, or a full-slice
+// expression base[:n:n] (cap == len forces a copy).
+func c15DistinctKeyStorage(c *Ctx, pkg string) {
+	n := 0
+	ord := ordCounter{}
+	for _, fn := range c.PkgFuncs(pkg) {
+		file := c.Fset.Position(fn.Pos()).Filename
+		if !strings.Contains(filepath.Base(file), "subset_loadbalancer") {
+			continue
+		}
+		loops := naturalLoops(fn)
+		forEachInstr(fn, false, func(f *ssa.Function, in ssa.Instruction) {
+			call, ok := in.(*ssa.Call)
+			if !ok {
+				return
+			}
+			b, isB := call.Call.Value.(*ssa.Builtin)
+			if !isB || b.Name() != "append" {
+				return
+			}
+			lp := loops
+			if f != fn {
+				lp = naturalLoops(f)
+			}
+			var body map[*ssa.BasicBlock]bool
+			for _, bd := range lp {
+				if bd[call.Block()] && (body == nil || len(bd) < len(body)) {
+					body = bd // innermost loop
+				}
+			}
+			if body == nil {
+				return
+			}
+			n++
+			key := ord.next(f, "append-in-loop")
+			base := call.Call.Args[0]
+			okBase, why := true, ""
+			switch {
+			case isNilConst(base):
+				why = "nil base: append allocates"
+			case definedIn(base, body):
+				why = "base is produced inside the iteration (fresh copy or the accumulator fed back)"
+				// an accumulator is fine; a slice of an outer array without a capacity limit is not
+				if sl, isS := base.(*ssa.Slice); isS && sl.Max == nil && !definedIn(sl.X, body) {
+					okBase, why = false, "base re-slices a loop-invariant value without limiting its capacity"
+				}
+			default:
+				if sl, isS := base.(*ssa.Slice); isS && sl.Max != nil {
+					why = "full-slice expression limits the capacity"
+				} else {
+					okBase, why = false, "base is loop-invariant"
+				}
+			}
+			c.Check("C15.R4", key, call.Pos(), okBase, why, "append onto a loop-invariant slice inside a loop ("+why+"): the lists built by successive iterations share one backing array, so sibling subset keys overwrite each other and entries are indexed under the wrong key/values")
+		})
+	}
+	if n < 3 {
+		c.Unresolved("C15.R4", fmt.Sprintf("append-in-loop sites in the subset builders (found %d)", n))
 	}
 }
 
